@@ -127,6 +127,8 @@ def transition_tests(chk, stage, groups, sample=None, per_stratum=2, strat=None,
     rnd = random.Random('%s|%s' % (stage, chk.seed))
     strat = strat or (lambda g: (g['lab']['cmd'], tt.op_key(g['lab'])[:0], g['allowed'][0]['lab'].get('exit'),
                                  json.dumps(g['allowed'][0]['lab'].get('ocs', ''))))
+    # TLC prints edges in a worker-dependent order: a canonical order makes the sample a function of the seed alone
+    groups = sorted(groups, key=lambda g: json.dumps([g['cfg'], g['pre'], g['lab']], sort_keys=True))
     total = len(groups)
     if sample is not None and total > sample:
         picked = framework.stratified_sample(list(groups), strat, per_stratum, sample, rnd)
